@@ -7,19 +7,22 @@ from . import common
 from . import stft_common as sc
 
 PROP = "C04"
-MODULES = ["PdsVerif.Props.StftTie", "PdsVerif.Props.C04", "PdsVerif.Props.C04Si"]
+MODULES = ["PdsVerif.Props.StftTie", "PdsVerif.Props.SiTie", "PdsVerif.Props.C04", "PdsVerif.Props.C04Si"]
 MODEL_MODULES = ["PdsVerif.Model.StftDrv", "PdsVerif.Model.Si"]
 REQUIRED = ["PdsVerif.StftTie." + n for n in ["full_pad_left_eq", "full_short_eq", "full_num_frames_eq", "full_pad_right_eq", "fin_pad_left_eq", "fin_num_frames_eq", "chunk_frame_length_eq", "chunk_num_frames_eq", "chunk_first_pad_eq", "torch_arith_eq_numpy", "torch_no_frame_eq"]] + ["PdsVerif.C04." + n for n in [
     "obs_equiv", "fresh_after_finalize", "history_independence", "finalize_not_started", "started_spec",
     "guard_full", "guard_fbf", "full_pure", "next_utterance_eq_full"]] + ["PdsVerif.C04Si." + n for n in [
     "si_chunk_history_independent", "si_chunk_started", "si_finalize_idle", "si_stream_idle", "si_full_idle",
     "si_full_history_independent", "si_stream_history_independent", "si_after_any_history", "si_full_refuses",
-    "si_started_spec"]]
+    "si_started_spec"]] + ["PdsVerif.SiTie." + n for n in ["reset_x_rem_eq", "reset_y_rem_eq", "reset_skip_eq", "reset_started_eq", "reset_zeroes_eq", "finalize_eq_gen"]]
 
 def translate(repo):
     """framing arithmetic of compute.py / torch.py -> Generated/StftConsts.lean (theorems: Props/StftTie.lean)"""
-    from .translate import stftconsts
-    return stftconsts.generate(repo)
+    from .translate import stftconsts, siconsts
+    files = dict(stftconsts.generate(repo))
+    # the SI computer's reset / finalize bookkeeping -> Generated/SiConsts.lean (Props/SiTie.lean)
+    files.update(siconsts.generate(repo))
+    return files
 
 
 RULE = (
